@@ -257,10 +257,11 @@ def stack_cases(draw):
     # ragged columns (some (outer, inner) pairs absent) leave cells to fill; the fill value may be of another type
     keep = [j for j in range(len(cols)) if draw(st.integers(0, 3)) > 0] or [0]
     fill = draw(st.sampled_from(['default', -1, 0.5, 'zz', 'default']))
+    dl = draw(st.sampled_from([1, 0, 1]))   # the depth that is moved
     cols = [cols[j] for j in keep]
     kinds = [kinds[j] for j in keep]
     data = draw(st.lists(st.integers(0, 40), min_size=n * len(cols), max_size=n * len(cols)))
-    return {'n': n, 'cols': cols, 'kinds': kinds, 'fill': fill, 'data': np.array(data, dtype=np.int64).reshape(n, len(cols)),
+    return {'n': n, 'cols': cols, 'kinds': kinds, 'fill': fill, 'dl': dl, 'data': np.array(data, dtype=np.int64).reshape(n, len(cols)),
             'index': draw(gen.flat_labels(n, draw(st.sampled_from(['int', 'str']))))}
 
 
@@ -272,9 +273,10 @@ def check_stack(case):
     f = sf.Frame.from_items(zip(cols, [gen.freeze(a) for a in arrays]), index=case['index'], columns_constructor=sf.IndexHierarchy.from_labels)
     fill = case.get('fill', 'default')
     fkw = {} if fill == 'default' else {'fill_value': fill}
-    st_ = lib(lambda: f.pivot_stack(1, **fkw))
+    dl = case.get('dl', 1)
+    st_ = lib(lambda: f.pivot_stack(dl, **fkw))
     if isinstance(st_, Raised):
-        raise Failure('raised:%s' % st_.cls, 'pivot_stack(1, %r) raised %r' % (fkw, st_.exc), st_.where)
+        raise Failure('raised:%s' % st_.cls, 'pivot_stack(%d, %r) raised %r' % (dl, fkw, st_.exc), st_.where)
 
     def collect(fr, key_of, what):
         # every cell is either an original cell or (where the source has no such cell) the fill value
@@ -297,26 +299,30 @@ def check_stack(case):
         for j, (a, b) in enumerate(cols):
             want[(_hk(r), _hk(a), _hk(b))] = arr_list(data[j])[i]
     # stacked: rows (index, inner), columns outer
-    cells, nf1 = collect(st_, lambda r, c: (_hk(r[0]), _hk(c), _hk(r[1])), 'pivot_stack(1, %r)' % fkw)
+    # (the moved depth becomes the inner row depth; unstacking it again appends it as the inner column depth)
+    k_st = (lambda r, c: (_hk(r[0]), _hk(c), _hk(r[1]))) if dl == 1 else (lambda r, c: (_hk(r[0]), _hk(r[1]), _hk(c)))
+    k_un = (lambda r, c: (_hk(r), _hk(c[0]), _hk(c[1]))) if dl == 1 else (lambda r, c: (_hk(r), _hk(c[1]), _hk(c[0])))
+    k_tr = (lambda r, c: (_hk(c[0]), _hk(r), _hk(c[1]))) if dl == 1 else (lambda r, c: (_hk(c[0]), _hk(c[1]), _hk(r)))
+    cells, nf1 = collect(st_, k_st, 'pivot_stack(%d, %r)' % (dl, fkw))
     if set(cells) != set(want) or not all(eq(cells[k], want[k]) for k in want):
         raise Failure('stack', 'pivot_stack cells %s expected %s' % (short(sorted(cells.items(), key=repr), 300), short(sorted(want.items(), key=repr), 300)))
     un = lib(lambda: st_.pivot_unstack(1, **fkw))
     if isinstance(un, Raised):
         raise Failure('raised:%s' % un.cls, 'pivot_unstack(1, %r) raised %r' % (fkw, un.exc), un.where)
-    got, nf2 = collect(un, lambda r, c: (_hk(r), _hk(c[0]), _hk(c[1])), 'stack then unstack(%r)' % fkw)
+    got, nf2 = collect(un, k_un, 'stack(%d) then unstack(%r)' % (dl, fkw))
     if set(got) != set(want) or not all(eq(got[k], want[k]) for k in want):
         raise Failure('unstack', 'stack then unstack: cells %s expected %s' % (short(sorted(got.items(), key=repr), 300), short(sorted(want.items(), key=repr), 300)))
     nf3 = 0
     if len(set(kinds)) == 1 and kinds[0] in ('int64', 'float64'):
         # the transposed frame has the ragged hierarchy on its rows: unstacking it meets groups without a target directly
         ft = f.transpose()
-        ut = lib(lambda: ft.pivot_unstack(1, **fkw))
+        ut = lib(lambda: ft.pivot_unstack(dl, **fkw))
         if isinstance(ut, Raised):
             raise Failure('raised:%s' % ut.cls, 'pivot_unstack(1, %r) on a ragged hierarchical index raised %r' % (fkw, ut.exc), ut.where)
-        gt, nf3 = collect(ut, lambda r, c: (_hk(c[0]), _hk(r), _hk(c[1])), 'unstack of a ragged index (%r)' % fkw)
+        gt, nf3 = collect(ut, k_tr, 'unstack(%d) of a ragged index (%r)' % (dl, fkw))
         if set(gt) != set(want) or not all(eq(gt[k], want[k]) for k in want):
             raise Failure('unstack', 'unstack of a ragged index: cells %s expected %s' % (short(sorted(gt.items(), key=repr), 300), short(sorted(want.items(), key=repr), 300)))
-    return {'nt': n >= 2 and len(cols) >= 2, 'cls': ['stack', 'stack-dtypes:%d' % len(set(kinds)), 'fill:%s' % type(fill).__name__] + (['cells-filled'] if nf1 + nf2 + nf3 else [])}
+    return {'nt': n >= 2 and len(cols) >= 2, 'cls': ['stack', 'stack-depth:%d' % dl, 'stack-dtypes:%d' % len(set(kinds)), 'fill:%s' % type(fill).__name__] + (['cells-filled'] if nf1 + nf2 + nf3 else [])}
 
 
 # ---------------------------------------------------------------------------------------------
